@@ -542,7 +542,7 @@ impl Prioritize {
                 stream.state.is_send_streaming() as i64,
                 stream.state.is_send_closed() as i64,
                 stream.state.is_closed() as i64,
-                stream.is_pending_open as i64,
+                (stream.is_pending_open || stream.is_pending_push) as i64,
                 isize::from(stream.send_flow.window_size_raw()) as i64,
                 isize::from(stream.send_flow.available()) as i64,
                 stream.requested_send_capacity as i64,
